@@ -126,3 +126,19 @@ Proof.
   - destruct (chain_same_gap fixed es t p s t' c' VC CS) as [p' [l [-> [L0 L1]]]].
     cbn. eauto.
 Qed.
+
+(** the hypotheses of [chain_sound] are satisfiable: insert a statement, then wrap two statements *)
+Example chain_sound_example :
+  let t := T 0 [T 1 [] []; T 2 [T 3 [] []] []] [] in
+  let es := [EInsert [(Body, 0)] Before [T 7 [] []]; EWrap [] Body 1 3 8 Body []] in
+  let c := CNode [(Body, 1); (Body, 0)] in
+  chain_pre code_now es t c /\ valid_cursor t c /\
+  exists t' c', apply_chain es t = Some t' /\ fwd_chain code_now es t c = Ok c'.
+Proof.
+  cbv zeta. split; [|split; [vm_compute; reflexivity | vm_compute; eauto]].
+  cbn [chain_pre]. split; [vm_compute; reflexivity|]. split; [exact I|].
+  intros t1 c1 H1 H2. vm_compute in H1, H2. injection H1 as <-. injection H2 as <-.
+  split; [exact I|]. split; [vm_compute; reflexivity|]. split; [vm_compute; reflexivity|].
+  intros t2 c2 H3 H4. split; [|exact I].
+  vm_compute in H4. injection H4 as <-. exact I.
+Qed.
